@@ -36,7 +36,8 @@ def kinds_of(m: dict) -> list[str]:
 # ----------------------------------------------------------------------------- pools (position-indexed, unique)
 # Default texts are literals. The default *expression* Griffe reports is judged by evaluation: eval(str(default)) must succeed
 # and denote CPython's default value (same type, same repr — which is nan/inf/-0.0 safe). The pool therefore also holds
-# literals whose source text differs from repr(value): overflowing floats (inf has no literal), hex / underscore / exponent
+# composite expressions (a tuple inside a call / conditional / list inside a subscript, keyword arguments holding calls with
+# keyword arguments) and literals whose source text differs from repr(value): overflowing floats (inf has no literal), hex / underscore / exponent
 # notations, implicit string and bytes concatenation — and strings that would parse as Python expressions ('utf-8', 'None', 'a.b',
 # 'int', 's1'): a string default must stay a string, also inside lambdas and in modules without PEP 563.
 def default_text(i: int) -> str:
@@ -44,7 +45,9 @@ def default_text(i: int) -> str:
     forms = (
         f"{10 + i}",
         f"'s{i}'",
+        f"tbl[key(({i}, 2))]",
         "1e999",
+        f"opt(default=fld(default={i}, unit='s'))",
         "'utf-8'",
         f"0x1{d}",
         "-1e999",
@@ -64,8 +67,26 @@ def default_text(i: int) -> str:
         f"'a.b{d}'",
         "'int'",
         f"'x{d} + 1'",
+        f"tbl[({i}, 2) if 1 else (3, 4)]",
+        f"opt(cb=[fld(flag=True)], n={i})",
+        f"tbl[[({i}, 2)]]",
+        f"opt(**{{'k': fld(n={i})}})",
     )
     return forms[i % len(forms)]
+
+
+# Composite default expressions are built from these helpers; they exist in the namespace the generated modules are executed in
+# and in the namespace Griffe's reported text is evaluated in, and return plain data (so values compare by type and repr).
+class _Tbl:
+    def __getitem__(self, item):
+        return ("item", item)
+
+
+def _record(tag: str):
+    return lambda *args, **kwargs: (tag, args, sorted(kwargs.items()))
+
+
+HELPERS = {"tbl": _Tbl(), "key": _record("key"), "opt": _record("opt"), "fld": _record("fld")}
 
 
 def denote(value) -> str:
@@ -76,7 +97,7 @@ def denote(value) -> str:
 def denote_text(text: str) -> tuple[bool, str]:
     """(evaluable?, denotation or error) of an expression text made of literals."""
     try:
-        return True, denote(eval(text, {}))  # noqa: S307
+        return True, denote(eval(text, dict(HELPERS)))  # noqa: S307
     except Exception as exc:  # noqa: BLE001
         return False, repr(exc)
 
@@ -86,10 +107,14 @@ def annotation_text(i: int) -> str:
     forms = (
         f"T{i}",
         f"list[T{i}]",
-        f"m.T{i}",
+        f"T{i}[dims(({i}, 3))]",
         f"T{i} | None",
+        f"Annotated[int, Field(gt={i}, extra=Extra(allow=True))]",
+        f"m.T{i}",
         f"dict[str, T{i}]",
         f"tuple[T{i}, ...]",
+        f"T{i}[(1, 2) if c else (3, 4)]",
+        f"Annotated[T{i}, opt(cb=[fld(flag=True)])]",
     )
     return forms[i % len(forms)]
 
